@@ -412,6 +412,9 @@ func runSchedule(sc Scenario, choices []int) result {
 		for i, it := range sc.Script {
 			i, it := i, it
 			sched.Env(&vt.EnvAction{Name: fmt.Sprintf("peer%d:%s", i, it), Once: true,
+				// the deadline items call SetCloseDeadline: an application call that must not be able to
+				// hang the driver if the library blocks in it
+				App:     it == "dlset" || it == "dl2" || it == "deadline",
 				Enabled: func() bool { return fed == i },
 				Do: func() {
 					fed++
